@@ -258,7 +258,7 @@ func TestC08(t *testing.T) {
 			if root.Half > 40 {
 				root.Half = gen.Draw(t, 0, 20, "half")
 			}
-			c := Case{FEN: root.FEN(), TT: []int{32 * 1024, 1 << 20}[gen.Draw(t, 0, 1, "tt")], Load: gen.Chance(t, 2, 3, "load")}
+			c := Case{FEN: root.FEN(), TT: []int{128 * 1024, 1 << 20}[gen.Draw(t, 0, 1, "tt")], Load: gen.Chance(t, 2, 3, "load")}
 			gen.Playout(t, root, 10, func(ply int, p *refchess.Pos, legal []refchess.Move, m refchess.Move) bool {
 				c.Moves = append(c.Moves, m.String())
 				return true
@@ -289,7 +289,7 @@ func TestC08(t *testing.T) {
 				}
 			}
 			if gen.Chance(t, 1, 2, "other") {
-				sz := []int{0, 0, 32, 3200, 32 * 1024, 1 << 20, 4 << 20}
+				sz := []int{0, 0, 32, 3200, 128 * 1024, 1 << 20, 4 << 20}
 				for i := 0; i <= len(c.Steps); i++ {
 					c.Other = append(c.Other, sz[gen.Draw(t, 0, len(sz)-1, "otherSize")])
 				}
